@@ -566,6 +566,7 @@ func TestVerifC12_RetryHandle(t *testing.T) {
 			c.Fails = append(c.Fails, c19GenFail(rt, c.Kind))
 		}
 		c.StaleDup = rapid.IntRange(0, 2).Draw(rt, "staleDup") == 0
+		c.PreConnect = rapid.IntRange(0, 2).Draw(rt, "preConnect") == 0
 		return c
 	}, func(tb rapid.TB, c c19RetryCase) { c19RetryRunProp(tb, c, "C12") })
 }
